@@ -31,7 +31,14 @@ Record rel_d := mkRelD {
   rd_id : Z; rd_hasinfo : bool; rd_fields : flags; rd_info : info_d; rd_tags : list (Z * Z);
   rd_forcetags : bool; rd_members : list member_d; rd_forcemembers : bool }.
 
-Inductive item_d := IDense (d : dense_d) | IWay (w : way_d) | IRel (r : rel_d) | IChangeset (id : Z).
+(* a plain (non-dense) Node message: field 1 of a PrimitiveGroup.  Valid OSM PBF (osmformat.proto:
+   `repeated Node nodes = 1`), written by few tools; the decoder under test answers with an error
+   (known finding "plain-node-group", see plain_nodes_refuted in ProofsAll.v) *)
+Record pnode_d := mkPN {
+  pn_id : Z; pn_lat : Z; pn_lon : Z; pn_hasinfo : bool; pn_fields : flags; pn_info : info_d; pn_tags : list (Z * Z) }.
+
+Inductive item_d := IDense (d : dense_d) | IWay (w : way_d) | IRel (r : rel_d) | IChangeset (id : Z)
+                  | INode (n : pnode_d).
 
 Record block_d := mkBlockD {
   b_strings : list bytes; b_omit_st : bool;
@@ -92,8 +99,13 @@ Definition rel_of (b : block_d) (r : rel_d) : relation :=
   mkRel (rd_id r) (meta b (rd_hasinfo r) (rd_fields r) (rd_info r)) (tags_of b (rd_tags r))
         (map (member_of b) (rd_members r)).
 
+Definition pnode_of (b : block_d) (n : pnode_d) : node :=
+  mkNode (pn_id n) (blatoff b + bgran b * pn_lat n) (blonoff b + bgran b * pn_lon n)
+         (meta b (pn_hasinfo n) (pn_fields n) (pn_info n)) (tags_of b (pn_tags n)).
+
 Definition item_elements (b : block_d) (it : item_d) : list obj :=
   match it with
+  | INode n => [ONode (pnode_of b n)]
   | IDense d => map (fun n => ONode (node_of b d n)) (de_nodes d)
   | IWay w => [OWay (way_of b w)]
   | IRel r => [ORel (rel_of b r)]
@@ -170,8 +182,18 @@ Definition enc_rel (r : rel_d) : msg :=
          (9, WPacked (deltas64 0 (map md_ref (rd_members r))));
          (10, WPacked (map (fun m => enc_int (md_type m)) (rd_members r)))] else []).
 
+(* Node: required sint64 id = 1; packed uint32 keys = 2, vals = 3; Info info = 4;
+   required sint64 lat = 8, lon = 9 *)
+Definition enc_pnode (n : pnode_d) : msg :=
+  [(1, WVar (zig64 (pn_id n)))] ++
+  (match pn_tags n with [] => []
+   | _ => [(2, WPacked (map fst (pn_tags n))); (3, WPacked (map snd (pn_tags n)))] end) ++
+  opt (pn_hasinfo n) (4, WMsg (enc_info (pn_fields n) (pn_info n))) ++
+  [(8, WVar (zig64 (pn_lat n))); (9, WVar (zig64 (pn_lon n)))].
+
 Definition enc_item (it : item_d) : Z * wval :=
   match it with
+  | INode n => (1, WMsg (enc_pnode n))
   | IDense d => (2, WMsg (enc_dense d))
   | IWay w => (3, WMsg (enc_way w))
   | IRel r => (4, WMsg (enc_rel r))
@@ -201,9 +223,11 @@ Definition info_ok (b : block_d) (present : bool) (fl : flags) (i : info_d) : bo
    && (negb (fl_usid fl) || sid_ok b (id_usid i))
    && (negb (fl_ts fl) || (in64 (id_ts i * bdgran b) && in64 (id_ts i * bdgran b * 1000000)))).
 
+(* nonzero (dense keys_vals): a KEY index 0 is the end-of-node delimiter, so a dense tag's key index
+   must not be 0; its VALUE index may be (the empty string) *)
 Definition tags_ok (b : block_d) (nonzero : bool) (ts : list (Z * Z)) : bool :=
   forallb (fun t => sid_ok b (fst t) && sid_ok b (snd t)
-                    && (negb nonzero || (negb (fst t =? 0) && negb (snd t =? 0)))) ts.
+                    && (negb nonzero || negb (fst t =? 0))) ts.
 
 Definition dnode_ok (b : block_d) (d : dense_d) (n : dnode_d) : bool :=
   in64 (dn_id n) && coord_ok (blatoff b) (bgran b) (dn_lat n) && coord_ok (blonoff b) (bgran b) (dn_lon n)
@@ -226,8 +250,15 @@ Definition rel_ok (b : block_d) (r : rel_d) : bool :=
   in64 (rd_id r) && info_ok b (rd_hasinfo r) (rd_fields r) (rd_info r) && tags_ok b false (rd_tags r)
   && forallb (member_ok b) (rd_members r).
 
+Definition pnode_ok (b : block_d) (n : pnode_d) : bool :=
+  in64 (pn_id n) && coord_ok (blatoff b) (bgran b) (pn_lat n) && coord_ok (blonoff b) (bgran b) (pn_lon n)
+  && info_ok b (pn_hasinfo n) (pn_fields n) (pn_info n) && tags_ok b false (pn_tags n).
+
+(* item_ok: the items the decoder under test supports (the domain of the faithfulness theorems);
+   format_item_ok: the items the FORMAT allows — the same plus plain nodes. *)
 Definition item_ok (b : block_d) (it : item_d) : bool :=
   match it with
+  | INode _ => false
   | IDense d => forallb (dnode_ok b d) (de_nodes d)
   | IWay w => way_ok b w
   | IRel r => rel_ok b r
@@ -236,7 +267,19 @@ Definition item_ok (b : block_d) (it : item_d) : bool :=
 
 Definition optin (f : Z -> bool) (o : option Z) : bool := match o with Some x => f x | None => true end.
 
+Definition params_ok (b : block_d) : bool :=
+  (negb (b_omit_st b) || match b_strings b with [] => true | _ => false end)
+  && optin in32 (b_gran b) && optin in32 (b_dgran b) && optin in64 (b_latoff b) && optin in64 (b_lonoff b).
+
 Definition valid_block (b : block_d) : bool :=
   (negb (b_omit_st b) || match b_strings b with [] => true | _ => false end)
   && optin in32 (b_gran b) && optin in32 (b_dgran b) && optin in64 (b_latoff b) && optin in64 (b_lonoff b)
   && forallb (forallb (item_ok b)) (b_groups b).
+
+(* validity with respect to the FORMAT alone: plain Node items allowed *)
+Definition format_item_ok (b : block_d) (it : item_d) : bool :=
+  match it with INode n => pnode_ok b n | _ => item_ok b it end.
+Definition format_valid_block (b : block_d) : bool :=
+  params_ok b && forallb (forallb (format_item_ok b)) (b_groups b).
+Definition is_plain (it : item_d) : bool := match it with INode _ => true | _ => false end.
+Definition no_plain_nodes (b : block_d) : bool := forallb (forallb (fun it => negb (is_plain it))) (b_groups b).
